@@ -1,1 +1,4 @@
-import SycVerif.Model.Route
+import SycVerif.Props.C17
+import SycVerif.Props.C19
+import SycVerif.Props.C19Easing
+import SycVerif.Driver.Main
